@@ -5,6 +5,7 @@
 -/
 import PygModel.Fill
 import PygProofs.Lemmas.FillLemmas
+import PygProofs.Lemmas.FillIndep
 
 namespace Pyg.Props.C12
 open Pyg Pyg.Fill
@@ -156,6 +157,82 @@ theorem step_ffill_na (lim : Option Nat) (f : Frame) (hl : limOk lim = true) :
     step lim f .ffill0 = .ok (f.mapCols (ffillTail (some 0) lim f.idx)) := by
   simp [step, hl]
 
+/-! ### no method changes a non-NaN cell (frame level) -/
+
+/-- cell of column number `j` at row position `i` -/
+def cell (f : Frame) (j i : Nat) : Option (Option Int) := (f.cols[j]?).bind fun c => c.2[i]?
+
+theorem mapCols_keeps (k : Col → Col) (f : Frame)
+    (hk : ∀ c : String × Col, c ∈ f.cols → ∀ (i : Nat) (v : Int), c.2[i]? = some (some v) → (k c.2)[i]? = some (some v))
+    (j i : Nat) (v : Int) (h : cell f j i = some (some v)) : cell (f.mapCols k) j i = some (some v) := by
+  unfold cell at h ⊢
+  cases hc : f.cols[j]? with
+  | none => rw [hc] at h; cases h
+  | some c =>
+    rw [hc] at h
+    simp only [Frame.mapCols, List.getElem?_map, hc, Option.map_some, Option.bind_some] at h ⊢
+    exact hk c (List.mem_of_getElem? hc) i v h
+
+/-- the filling methods (constant, ffill, bfill, ffill_na, ffill_0) keep the index, the columns and every
+non-NaN cell of a frame; the removing methods are covered by `nona_rows` / `fnna_rows` (surviving rows unchanged) -/
+theorem fill_keeps_values (lim : Option Nat) (m : Method) (f g : Frame) (hm : m ≠ .fnna ∧ m ≠ .nona)
+    (hs : f.Sorted) (hr : f.Rect) (h : step lim f m = .ok g) :
+    g.idx = f.idx ∧ g.names = f.names ∧ ∀ j i v, cell f j i = some (some v) → cell g j i = some (some v) := by
+  have names_map : ∀ k : Col → Col, (f.mapCols k).names = f.names := fun k => by
+    simp [Frame.names, Frame.mapCols, List.map_map, Function.comp_def]
+  cases m with
+  | fnna => exact (hm.1 rfl).elim
+  | nona => exact (hm.2 rfl).elim
+  | const c =>
+    simp only [step] at h; split at h
+    · cases h; exact ⟨rfl, names_map _, mapCols_keeps _ f fun _ _ i v hv => fillConst_keep _ _ _ i v hv⟩
+    · cases h
+  | ffill =>
+    simp only [step] at h; split at h
+    · cases h; exact ⟨rfl, names_map _, mapCols_keeps _ f fun _ _ i v hv => ffillAux_keep _ _ _ _ i v hv⟩
+    · cases h
+  | bfill =>
+    simp only [step] at h; split at h
+    · cases h; exact ⟨rfl, names_map _, mapCols_keeps _ f fun _ _ i v hv => bfill_keep _ _ i v hv⟩
+    · cases h
+  | ffillNa =>
+    simp only [step] at h; split at h
+    · cases h
+      exact ⟨rfl, names_map _, mapCols_keeps _ f fun c hc i v hv => ffillTail_keep _ _ _ _ hs (hr c hc).symm i v hv⟩
+    · cases h
+  | ffill0 =>
+    simp only [step] at h; split at h
+    · cases h
+      exact ⟨rfl, names_map _, mapCols_keeps _ f fun c hc i v hv => ffillTail_keep _ _ _ _ hs (hr c hc).symm i v hv⟩
+    · cases h
+
+/-- every step, hence every method list, keeps the index strictly increasing and the frame rectangular -/
+theorem fillna_wellformed (ms : List Method) (lim : Option Nat) (f g : Frame) (hs : f.Sorted) (hr : f.Rect)
+    (h : fillna ms lim f = .ok g) : g.Sorted ∧ g.Rect := by
+  have := fillna_same lim ms (f := f) (g := f) ⟨rfl, rfl, hs, hs, hr⟩
+  rw [h] at this
+  exact ⟨this.sf, this.rf⟩
+
+/-! ### arrays -/
+
+/-- Given a numpy array (the column values alone) the result equals the values of the result for ANY
+Series / DataFrame that carries those values over a strictly increasing index: the array path goes through a
+`RangeIndex` (lines 211-212) and no method's values depend on the labels.  Errors agree as well. -/
+theorem array_agrees (ms : List Method) (lim : Option Nat) (f : Frame) (hs : f.Sorted) (hr : f.Rect)
+    (hne : f.cols ≠ []) : fillnaArr ms lim f.vals = (fillna ms lim f).map Frame.vals := by
+  cases ms with
+  | nil => rfl
+  | cons m ms =>
+    have h := fillna_same lim (m :: ms) (same_ofArr f hs hr hne)
+    show (fillna (m :: ms) lim (ofArr f.vals)).map Frame.vals = _
+    cases h1 : fillna (m :: ms) lim f <;> cases h2 : fillna (m :: ms) lim (ofArr f.vals) <;> rw [h1, h2] at h
+    · show Except.error _ = Except.error _
+      rw [show _ = _ from h]
+    · exact h.elim
+    · exact h.elim
+    · show Except.ok _ = Except.ok _
+      rw [(show Same _ _ from h).vals]
+
 /-! ### non-vacuity and evaluation checks -/
 
 example : ffill (some 1) [Option.none, some 1, Option.none, Option.none, some 5, Option.none] =
@@ -179,5 +256,10 @@ example : let f : Frame := { idx := [1, 2, 3, 4], cols := [("a", [Option.none, s
     f.Sorted ∧ f.Rect ∧
     (step Option.none f .nona).toOption.map (·.idx) = some [2, 4] ∧
     (step Option.none f .fnna).toOption.map (·.idx) = some [2, 3, 4] := by decide
+
+/-- `array_agrees` on a frame with gaps in its index and a method list that drops and fills -/
+example : let f : Frame := { idx := [3, 5, 9, 10], cols := [("a", [Option.none, some 1, Option.none, Option.none])] }
+    f.Sorted ∧ f.Rect ∧ f.cols ≠ [] ∧
+    (fillnaArr [.fnna, .ffill0] Option.none f.vals).toOption = some [[some 1, some 0, some 0]] := by decide
 
 end Pyg.Props.C12
